@@ -94,7 +94,11 @@ func (g *GettyRemoting) sendAsync(session getty.Session, msg message.RpcMessage,
 	}
 	_, _, err = session.WritePkg(msg, time.Duration(0))
 	if err != nil {
-		g.futures.Delete(msg.ID)
+		if callback != nil {
+			// only the future stored above is taken back: a message nobody waits for (a reply carries the
+			// coordinator's id) has none, and the entry under its id belongs to a request of this client
+			g.futures.Delete(msg.ID)
+		}
 		log.Errorf("send message: %#v, session: %s", msg, session.Stat())
 		return nil, err
 	}
